@@ -119,7 +119,7 @@ func caseHead(g *flow.Graph, label string) *flow.Node {
 // R01.30: a string key is replaced by a number only if the number is written back as that string.
 func (c *Ctx) r0130(pk *packages.Package) {
 	const rule = "R01.30"
-	c.R.Rule(rule, "a[\"1.5\"] and a[1.5] name the same property because ToString(1.5) is \"1.5\"; a[\"1.0\"], a[\"1.\"], a[\".5\"] and a[\"12345678901234567890\"] do not survive the round trip (\"1\", \"1\", \"0.5\", \"12345678901234567000\") and must stay strings. In jsMinifier.minifyExpr, case *js.IndexExpr, the write of minify.Number(<string contents>) is dominated by the true outcome of js.AsDecimalLiteral and of a second predicate of the module over the same bytes whose body looks at the dot ('.'), at a trailing zero ('0') and bounds the length (an integer constant between 15 and 17: the digits a double keeps)")
+	c.R.Rule(rule, "a[\"1.5\"] and a[1.5] name the same property because ToString(1.5) is \"1.5\"; a[\"1.0\"], a[\"1.\"], a[\".5\"], a[\"12345678901234567890\"] and a[\"9007199254740993\"] (16 digits, above 2^53) do not survive the round trip (\"1\", \"1\", \"0.5\", \"12345678901234567000\") and must stay strings. In jsMinifier.minifyExpr, case *js.IndexExpr, the write of minify.Number(<string contents>) is dominated by the true outcome of js.AsDecimalLiteral and of a second predicate of the module over the same bytes whose body looks at the dot ('.'), at a trailing zero ('0') and rejects every string longer than 15 bytes (a comparison of len(…) with a constant: 15 digits are written back exactly, 16-digit integers only below 2^53)")
 	info := pk.TypesInfo
 	fd := c.fn(rule, pk, "jsMinifier.minifyExpr")
 	if fd == nil {
@@ -153,13 +153,40 @@ func (c *Ctx) r0130(pk *packages.Package) {
 						return true
 					}
 					seen = append(seen, load.FuncName(d))
-					chars, _, ints := c.constsIn(p, d.Body)
+					chars, _, _ := c.constsIn(p, d.Body)
+					// the longest string the predicate accepts: 15 digits are written back exactly (10^15 < 2^53, DBL_DIG = 15),
+					// of the 16-digit integers only those below 2^53
 					bound := false
-					for k := range ints {
-						if 15 <= k && k <= 17 {
+					ast.Inspect(d.Body, func(q ast.Node) bool {
+						be, ok := q.(*ast.BinaryExpr)
+						if !ok {
+							return true
+						}
+						isLen := func(e ast.Expr) bool {
+							lc, ok := ast.Unparen(e).(*ast.CallExpr)
+							return ok && str(lc.Fun) == "len" && len(lc.Args) == 1
+						}
+						var longest int64 = -1
+						if kv, isK := intConst(p.TypesInfo, be.Y); isK && isLen(be.X) {
+							switch be.Op {
+							case token.GTR:
+								longest = kv
+							case token.GEQ:
+								longest = kv - 1
+							}
+						} else if kv, isK := intConst(p.TypesInfo, be.X); isK && isLen(be.Y) {
+							switch be.Op {
+							case token.LSS:
+								longest = kv
+							case token.LEQ:
+								longest = kv - 1
+							}
+						}
+						if 0 < longest && longest <= 15 {
 							bound = true
 						}
-					}
+						return true
+					})
 					if chars['.'] && chars['0'] && bound {
 						good = true
 					}
@@ -1703,4 +1730,267 @@ func (c *Ctx) r0147(pk *packages.Package) {
 			"a break or continue at the end of a statement list is removed whatever its label: `outer:for(;;){switch(i){default:f();break outer}g()}` loses the `break outer` and runs g()")
 	}
 	c.R.Floor(rule, "removals of a trailing jump", n, 1)
+}
+
+// R01.48 (= R09.26): parentheses around an optional chain that is continued stay.
+func (c *Ctx) r0148(pk *packages.Package, rule string) {
+	c.R.Rule(rule, "an optional chain ends at a closing parenthesis: `(a?.b)()` calls the value of the chain (and throws when it is undefined), `a?.b()` is one chain that short-circuits as a whole; `new a?.b` and a tagged template on a chain are syntax errors. The member, call and template printers ask isOptionalGroup for their operand; but jsMinifier.minifyExpr, case *js.GroupExpr, replaces a parenthesised conditional by the result of optimizeCondExpr, which can be such a chain (`(a==null?undefined:a.b)()`), after the parent has asked. Where the case assigns the group's content from optimizeCondExpr, every path from that assignment to the print of the content without parentheses passes a test that consults an optional-chain predicate (a function of the package that reads the links' Optional flag)")
+	info := pk.TypesInfo
+	fd := c.fn(rule, pk, "jsMinifier.minifyExpr")
+	if fd == nil {
+		return
+	}
+	g := c.graph(pk, fd)
+	head := caseHead(g, "*js.GroupExpr")
+	if head == nil {
+		c.R.Unres(rule, "js.jsMinifier.minifyExpr/case *js.GroupExpr", c.pos(fd), "case not found")
+		return
+	}
+	// the predicate: a function of the package whose body reads a field named Optional
+	isPred := func(ce *ast.CallExpr) bool {
+		_, d := c.calleeDecl(info, ce)
+		if d == nil || d.Body == nil {
+			return false
+		}
+		hit := false
+		ast.Inspect(d.Body, func(z ast.Node) bool {
+			if sel, ok := z.(*ast.SelectorExpr); ok && sel.Sel.Name == "Optional" {
+				hit = true
+			}
+			return !hit
+		})
+		return hit
+	}
+	rewrites := false
+	var rewriteNodes []*flow.Node
+	n := 0
+	var prec types.Object
+	if fd.Type.Params != nil {
+		for _, f := range fd.Type.Params.List {
+			for _, nm := range f.Names {
+				if t := info.TypeOf(f.Type); t != nil && strings.HasSuffix(t.String(), "js.OpPrec") {
+					prec = info.Defs[nm]
+				}
+			}
+		}
+	}
+	for _, y := range g.Nodes {
+		a := y.Ast()
+		if a == nil || y.Kind != flow.KStmt || c.caseLabel(a) != "case *js.GroupExpr" {
+			continue
+		}
+		if as, ok := a.(*ast.AssignStmt); ok {
+			for _, r := range as.Rhs {
+				if ce, ok := ast.Unparen(r).(*ast.CallExpr); ok && strings.HasSuffix(calleeName(info, ce), ".optimizeCondExpr") {
+					rewrites = true
+					rewriteNodes = append(rewriteNodes, y)
+				}
+			}
+		}
+	}
+	if !rewrites {
+		c.R.Exists(rule, "js.jsMinifier.minifyExpr/case *js.GroupExpr/no rewrite of the content", c.pos(fd), "the case does not replace the group's content")
+		return
+	}
+	consults := func(q *flow.Node) bool {
+		if q.Kind != flow.KCond {
+			return false
+		}
+		var whole ast.Node = q.Expr
+		for x := c.P.Parent(q.Expr); x != nil; x = c.P.Parent(x) {
+			if ifs, ok := x.(*ast.IfStmt); ok {
+				if ifs.Cond.Pos() <= q.Expr.Pos() && q.Expr.End() <= ifs.Cond.End() {
+					whole = ifs.Cond // the test may be one operand of a split && / ||
+				}
+				break
+			}
+			if _, ok := x.(ast.Stmt); ok {
+				break
+			}
+		}
+		hit := false
+		ast.Inspect(whole, func(z ast.Node) bool {
+			if ce, ok := z.(*ast.CallExpr); ok && isPred(ce) {
+				hit = true
+			}
+			return !hit
+		})
+		return hit
+	}
+	for _, y := range g.Nodes {
+		a := y.Ast()
+		if a == nil || y.Kind != flow.KStmt || c.caseLabel(a) != "case *js.GroupExpr" {
+			continue
+		}
+		for _, call := range findCalls(info, a, false, load.Mod+"/js.(jsMinifier).minifyExpr") {
+			if len(call.Args) != 2 {
+				continue
+			}
+			id, ok := ast.Unparen(call.Args[1]).(*ast.Ident)
+			if !ok || info.Uses[id] != prec {
+				continue // printed inside its own parentheses at a constant level
+			}
+			n++
+			y := y
+			p := g.Path(flow.Search{From: rewriteNodes, Goal: func(q *flow.Node) bool { return q == y }, Avoid: consults})
+			c.R.Check(p == nil, rule, fmt.Sprintf("js.jsMinifier.minifyExpr/case *js.GroupExpr/content printed without parentheses#%d only after asking for an optional chain", n), c.pos(call), "every path from the rewrite to the print passes a test that consults the optional-chain predicate",
+				"the parentheses of a group are dropped by comparing levels only, after its conditional may have become an optional chain: `(a==null?undefined:a.b)()` → `a?.b()` (no TypeError for a null a), `new (a==null?undefined:a.b)` → `new a?.b` (SyntaxError): "+pathStr(c, g, p))
+		}
+	}
+	c.R.Floor(rule, "prints of a group's content without parentheses", n, 1)
+	// the predicate the member, call and template printers ask looks at every link (known finding K18: the outermost only)
+	if og := load.Func(pk, "isOptionalGroup"); og == nil || og.Body == nil {
+		c.R.Unres(rule, "js.isOptionalGroup/every link of the chain is looked at", c.pos(fd), "isOptionalGroup not found")
+	} else {
+		walks := func(d *ast.FuncDecl) bool {
+			loop := false
+			ast.Inspect(d.Body, func(z ast.Node) bool {
+				switch z.(type) {
+				case *ast.ForStmt, *ast.RangeStmt:
+					loop = true
+				}
+				return !loop
+			})
+			return loop
+		}
+		deep := walks(og)
+		ast.Inspect(og.Body, func(z ast.Node) bool {
+			if ce, ok := z.(*ast.CallExpr); ok {
+				if _, d := c.calleeDecl(info, ce); d != nil && d.Body != nil && (d == og || isPred(ce) && walks(d)) {
+					deep = true // recursion, or a helper that walks the chain
+				}
+			}
+			return true
+		})
+		c.R.Check(deep, rule, "js.isOptionalGroup/every link of the chain is looked at", c.pos(og), "the predicate walks the chain",
+			"isOptionalGroup looks at the outermost link of the parenthesised chain only: for `(a?.b.c).d` and `(a?.b.c)()` it answers no, the parentheses are dropped, and the member or call becomes part of the optional chain (`a?.b.c.d` is undefined for a null a, the input throws)")
+	}
+}
+
+// R01.49: only a directive is printed as a statement that is a string and nothing else.
+func (c *Ctx) r0149(pk *packages.Package) {
+	const rule = "R01.49"
+	c.R.Rule(rule, "a statement at the start of a function body or script that consists of a string literal token and nothing else is a directive (ECMA-262 §11.2.1): `\"use strict\"` changes the meaning of the whole function. `(\"use strict\");` and `\"use \"+\"strict\";` are ordinary expression statements; printed without the parentheses, or with the strings joined, they become directives. (a) jsMinifier.minifyStmt, case *js.ExprStmt, tests the statement's value for a parenthesised string (a StringToken test) and writes an opening parenthesis under it; (b) the string printer of jsMinifier.minifyExpr (case *js.LiteralExpr) looks at whether it prints a whole statement (a test of m.expectExpr) before it writes a string — a string that mergeBinaryExpr assembled is printed by it like a directive")
+	info := pk.TypesInfo
+	// (a)
+	if fd := c.fn(rule, pk, "jsMinifier.minifyStmt"); fd != nil {
+		g := c.graph(pk, fd)
+		good := false
+		for _, y := range g.Nodes {
+			a := y.Ast()
+			if a == nil || y.Kind != flow.KStmt || c.caseLabel(a) != "case *js.ExprStmt" {
+				continue
+			}
+			for _, call := range findCalls(info, a, false, load.Mod+"/js.(jsMinifier).write") {
+				if len(call.Args) != 1 {
+					continue
+				}
+				id, ok := ast.Unparen(call.Args[0]).(*ast.Ident)
+				if !ok {
+					continue
+				}
+				v, ok := info.Uses[id].(*types.Var)
+				if !ok {
+					continue
+				}
+				if txt, ok := c.byteVarText(pk, v); !ok || txt != "(" {
+					continue
+				}
+				for _, f := range g.DomFacts(y) {
+					if f.Value && f.Test.Kind == flow.KCond && strings.Contains(nospace(str(f.Test.Expr)), "js.StringToken") {
+						good = true
+					}
+				}
+			}
+		}
+		c.R.Check(good, rule, "js.jsMinifier.minifyStmt/case *js.ExprStmt/(a) a parenthesised string keeps its parentheses", c.pos(fd), "an opening parenthesis is written under a StringToken test of the statement's value",
+			"an expression statement that is a parenthesised string literal is printed without the parentheses: `function f(){(\"use strict\");return this}` becomes `function f(){\"use strict\";return this}`, a strict function")
+	}
+	// (b)
+	if fd := c.fn(rule, pk, "jsMinifier.minifyExpr"); fd != nil {
+		g := c.graph(pk, fd)
+		n := 0
+		for _, y := range g.Nodes {
+			a := y.Ast()
+			if a == nil || y.Kind != flow.KStmt || c.caseLabel(a) != "case *js.LiteralExpr" {
+				continue
+			}
+			uses := false
+			ast.Inspect(a, func(z ast.Node) bool {
+				if ce, ok := z.(*ast.CallExpr); ok && strings.HasSuffix(calleeName(info, ce), ".minifyString") {
+					uses = true
+				}
+				return true
+			})
+			if !uses {
+				continue
+			}
+			n++
+			good := false
+			for _, f := range g.DomFacts(y) {
+				if f.Test.Kind == flow.KCond && strings.Contains(nospace(str(f.Test.Expr)), ".expectExpr") {
+					good = true
+				}
+			}
+			// or a test on the way that follows the string's computation
+			if !good {
+				ast.Inspect(a, func(z ast.Node) bool { return true })
+				for x := c.P.Parent(a); x != nil; x = c.P.Parent(x) {
+					if bl, ok := x.(*ast.BlockStmt); ok {
+						for _, st := range bl.List {
+							if ifs, ok := st.(*ast.IfStmt); ok && strings.Contains(nospace(str(ifs.Cond)), ".expectExpr") {
+								good = true
+							}
+						}
+						break
+					}
+				}
+			}
+			c.R.Check(good, rule, fmt.Sprintf("js.jsMinifier.minifyExpr/case *js.LiteralExpr/(b) string#%d written as a whole statement only for a directive", n), c.pos(a), "the string printer looks at m.expectExpr",
+				"the string printer does not know whether it prints a whole statement: `function f(){\"use \"+\"strict\";var a=this;return a}` becomes `function f(){\"use strict\";var e=this;return e}`, a strict function")
+		}
+		c.R.Floor(rule, "writes of a string literal", n, 1)
+	}
+}
+
+// R01.50: a lone lexical declaration is dropped with its block only when it binds plain names.
+func (c *Ctx) r0150(pk *packages.Package) {
+	const rule = "R01.50"
+	c.R.Rule(rule, "optimizeStmt removes a block whose only statement is a let/const declaration and keeps the initialisers that have side effects. A destructuring declaration does more than evaluate its initialiser: `{let {a}=b}` throws for a null b and runs getters, `{let [a]=b}` runs b's iterator. In the branch that builds the replacement from the declaration's items (it reads their Default), the items' Binding is asserted to *js.Var")
+	fd := c.fn(rule, pk, "optimizeStmt")
+	if fd == nil {
+		return
+	}
+	n := 0
+	ast.Inspect(fd.Body, func(x ast.Node) bool {
+		rs, ok := x.(*ast.RangeStmt)
+		if !ok || !strings.HasSuffix(nospace(str(rs.X)), ".List") {
+			return true
+		}
+		readsDefault, collects := false, false
+		ast.Inspect(rs.Body, func(z ast.Node) bool {
+			if sel, ok := z.(*ast.SelectorExpr); ok && sel.Sel.Name == "Default" {
+				readsDefault = true
+			}
+			if ce, ok := z.(*ast.CallExpr); ok && str(ce.Fun) == "append" {
+				collects = true
+			}
+			return true
+		})
+		if !readsDefault || !collects {
+			return true
+		}
+		n++
+		asserts := false
+		ast.Inspect(rs.Body, func(z ast.Node) bool {
+			if ta, ok := z.(*ast.TypeAssertExpr); ok && ta.Type != nil && strings.HasSuffix(nospace(str(ta.X)), ".Binding") && strings.HasSuffix(nospace(str(ta.Type)), "js.Var") {
+				asserts = true
+			}
+			return true
+		})
+		c.R.Check(asserts, rule, fmt.Sprintf("js.optimizeStmt/lone declaration#%d replaced by its initialisers only for plain names", n), c.pos(rs), "the items' Binding is asserted to *js.Var",
+			"a lone let/const declaration is replaced by its initialisers whatever it binds: `{let {a}=b}` becomes `b` — no TypeError for a null b, no getter is run")
+		return true
+	})
+	c.R.Floor(rule, "replacements of a lone declaration", n, 1)
 }
